@@ -87,6 +87,24 @@ def optional_check(name, f, scope, upto, anchor_re, params, doc):
     return {'name': name, 'file': f, 'custom': custom}
 
 
+def calls_rdbuf(name, cls, doc):
+    """does `<cls>::set_stream` (the member of the std-stream wrapper, not of its streambuf) call
+    `this->rdbuf(&buf_)`?  basic_ios::rdbuf(sb) also clears the error state of the stream."""
+    def custom(text):
+        m = re.search(r'class %s : public std::basic_%s<char>' % (cls, cls), text)
+        if not m:
+            raise cexpr.ParseError('class %s not found' % cls)
+        m2 = re.compile(r'inline void set_stream\(Stream \*stream\) \{(.*?)\n  \}', re.S).search(text, m.end())
+        if not m2:
+            raise cexpr.ParseError('%s::set_stream not found' % cls)
+        body = m2.group(1)
+        if 'buf_.set_stream(stream);' not in body:
+            raise cexpr.ParseError('%s::set_stream does not forward to buf_.set_stream' % cls)
+        yes = re.search(r'this->rdbuf\(&buf_\);', body) is not None
+        return '/- %s: body `%s` -/\ndef %s : Bool := %s' % (doc, ' '.join(body.split()), name, 'true' if yes else 'false')
+    return {'name': name, 'file': IOH, 'custom': custom}
+
+
 ITEMS = [
     # ---- MemoryFixedSizeStream ----------------------------------------------------------------
     ('fxReadOk', MIO, FX_READ, r'CHECK\(([^;]+)\);', [CUR, SIZE, BSZ], 'Bool'),
@@ -154,6 +172,8 @@ ITEMS = [
     ('ibIsEmpty', IOH, r'inline int istream::InBuf::underflow[\s\S]*?bytes_read_ \+= sz;',
      r'if \((this->gptr\(\) == this->egptr\(\))\) \{\s*return traits_type::eof',
      [P('this->gptr()', 'gptr', 64), P('this->egptr()', 'egptr', 64)], 'Bool'),
+    calls_rdbuf('isSetStreamRdbuf', 'istream', 'istream::set_stream'),
+    calls_rdbuf('osSetStreamRdbuf', 'ostream', 'ostream::set_stream'),
     # ---- io::FileStream -----------------------------------------------------------------------
     ('fsSeekOff', LFS, r'class FileStream : public SeekStream[\s\S]*?virtual void Seek\(',
      r'std::fseek\(fp_, ([^;]+?), SEEK_SET\)', [P('pos', 'pos', 64)], 'Nat'),
